@@ -168,9 +168,33 @@ def big_frame_cases(ctx):
     return out
 
 
+def consecutive_jump_cases(ctx):
+    """two to five time jumps in a row (no packet between them) whose sub-second parts add up to several seconds, in all
+    four units, between packets: every record still has nsec < 10^9 and the seconds are all there"""
+    r = ctx.rng
+    out = []
+    pk = lambda t: gen.Do(gen.Call("ipv4::udp::unicast", gen.SOCK("1.2.3.4:1"), gen.SOCK("1.2.3.5:2"), _x=[gen.STR(t)]))
+    subs = [("millis", 700), ("millis", 800), ("millis", 999), ("micros", 999999), ("nanos", 999999999), ("nanos", 500000000),
+            ("micros", 1700000), ("millis", 2900), ("seconds", 1)]
+    for i in range(16 if ctx.thorough else 6):
+        c = Case()
+        c.name, c.files, c.text = "cj%d" % i, {}, None
+        c.stmts, c.meta = [gen.Import("ipv4"), gen.Import("time")], [{"kind": "import", "npk": 0}, {"kind": "import", "npk": 0}]
+        for blk in range(r.randint(2, 4)):
+            c.stmts.append(pk(b"p%d" % blk)); c.meta.append({"kind": "expr", "npk": 1})
+            for _ in range(r.randint(2, 5)):
+                u, m = r.choice(subs)
+                c.stmts.append(gen.Do(gen.Call("time::jump_" + u, gen.INT(m))))
+                c.meta.append({"kind": "expr", "npk": 0, "what": "jump"})
+        c.stmts.append(pk(b"last")); c.meta.append({"kind": "expr", "npk": 1})
+        c.gen = {"directed": False, "base": None, "kind": "consecutive-jumps"}
+        out.append(c)
+    return out
+
+
 def run(ctx):
     n = 400 if ctx.thorough else 60
-    cases = make_cases(ctx, n) + boundary_cases(ctx, 12 if ctx.thorough else 4) + big_frame_cases(ctx)
+    cases = make_cases(ctx, n) + boundary_cases(ctx, 12 if ctx.thorough else 4) + big_frame_cases(ctx) + consecutive_jump_cases(ctx)
     diff.run_both(ctx, "c12", cases)
     byname = {c.name: c for c in cases}
     for c in cases:
